@@ -223,7 +223,7 @@ class SpecMixin:
             x = Val.x(a.t) if a.ty == "real" else z3.ToReal(smt.num(a.t))
             y = Val.x(b.t) if b.ty == "real" else z3.ToReal(smt.num(b.t))
         else:
-            x, y = smt.num(a.t), smt.num(b.t)
+            x, y = smt.N(a), smt.N(b)
         return {ast.Lt: lambda: x < y, ast.LtE: lambda: x <= y, ast.Gt: lambda: x > y, ast.GtE: lambda: x >= y}[type(op)]()
 
     def typeof_cmp(self, st, a, b):
@@ -301,7 +301,7 @@ class SpecMixin:
             if isinstance(e.op, ast.Not):
                 return sv_bool(z3.Not(self.sb(e.operand, ctx)))
             if isinstance(e.op, ast.USub):
-                return sv_int(-smt.num(self.sv(e.operand, ctx).t))
+                return sv_int(-smt.N(self.sv(e.operand, ctx)))
         if isinstance(e, (ast.Compare,)):
             return sv_bool(self.s_compare(e, ctx))
         if isinstance(e, ast.BoolOp):
@@ -381,9 +381,9 @@ class SpecMixin:
             n = z3.Length(Val.s(base.t))
             i = z3.If(i < 0, i + n, i)
             return SV(smt.mk_str(z3.SubString(Val.s(base.t), i, 1)), "str")
-        i = Val.i(idx.t)
-        n = self.list_len(st, base.t)
-        i = z3.If(i < 0, i + n, i)
+        i = z3.simplify(Val.i(idx.t))
+        if z3.is_int_value(i) and i.as_long() < 0:
+            i = i + self.list_len(st, base.t)  # only constant negative indices wrap in spec mode
         et = base.meta[1] if base.meta and base.meta[0] == "elemtype" else None
         v = z3.Select(self.list_items(st, base.t), i)
         return SV(v, et.single if et else None)
@@ -391,7 +391,7 @@ class SpecMixin:
     def arith(self, op, a, b):
         if isinstance(op, ast.Add) and (a.ty == "str" or b.ty == "str"):
             return SV(smt.mk_str(z3.Concat(Val.s(a.t), Val.s(b.t))), "str")
-        x, y = smt.num(a.t), smt.num(b.t)
+        x, y = smt.N(a), smt.N(b)
         if isinstance(op, ast.Add):
             return sv_int(x + y)
         if isinstance(op, ast.Sub):
@@ -426,7 +426,7 @@ class SpecMixin:
                 x, y = self.sv(a[1], ctx), self.sv(a[2], ctx)
                 return SV(z3.If(c, x.t, y.t), x.ty if x.ty == y.ty else None)
             if fn in ("min", "max"):
-                x, y = smt.num(self.sv(a[0], ctx).t), smt.num(self.sv(a[1], ctx).t)
+                x, y = smt.N(self.sv(a[0], ctx)), smt.N(self.sv(a[1], ctx))
                 return sv_int(z3.If((x <= y) if fn == "min" else (x >= y), x, y))
             if fn == "substr":  # substr(s, lo, hi) = s[lo:hi] with 0<=lo<=hi<=len assumed by the spec writer
                 s = Val.s(self.sv(a[0], ctx).t)
